@@ -52,7 +52,10 @@ pub fn build_step(
     let node = tree.make(&data.id(), data, level)?;
 
     if node.level == prev.level {
-        prev.set_next(&node, true);
+        // a step that names its successor keeps it: the declaration order only links the others
+        if prev.next().upgrade().is_none() {
+            prev.set_next(&node, true);
+        }
     } else {
         node.set_parent_in(typ, on, parent);
     }
